@@ -74,6 +74,8 @@ def _load():
     from .oracles.c14 import C14
     from .oracles.c04 import C04, C05
     from .oracles.c06 import C06, C07
+    from .oracles.c03 import C03
+    from .oracles.c08 import C08
 
     wide = profile()
     faulty = profile(f_zero=0.8, f_infarr=0.3, f_batch0=0.8, qcap=0.7, sched=0.35, renege=0.4, batch=0.4)
@@ -89,6 +91,9 @@ def _load():
                      B(60000, 800000)))
 
 
+    register(Profile("C03", [C03], [(2, wide), (1, faulty), (1, profile(prio=0.8, preempt=0.8, sched=0.4, renege=0.5, jockey=0.6, qcap=0.6))],
+                     "distinct history digest; non-trivial = >=1 customer with >=2 records",
+                     B(40000, 500000)))
     NOREROUTE = dict(preempt_opts=[False, "resume", "restart", "resample"],
                      sched_pre_opts=[False, False, "resume", "restart", "resample"])
     srv = profile(ordinary_only=True, inf=0.0, zero=0.0, sched=0.35, qcap=0.6, renege=0.3, n=[1, 2, 2, 3], ps=0.0, slot=0.0)
@@ -98,6 +103,11 @@ def _load():
                      B(40000, 400000)))
     register(Profile("C05", [C05], [(2, srv), (1, profile(ordinary_only=True, sched=0.5, prio=0.8, preempt=0.7, renege=0.5, cct=0.3, n=[1, 2, 3]))],
                      "distinct history digest; non-trivial = >=1 customer waited and later started service",
+                     B(40000, 400000)))
+    order = profile(ordinary_only=True, k=[2, 2, 3], prio=0.85, preempt=0.4, disc=0.8, sched=0.25, sched_pre_opts=[False], ccm=0.3, cct=0.15,
+                    qcap=0.4, batch=0.4, renege=0.2, inf=0.05, slot=0.0, ps=0.0, n=[1, 1, 2, 3])
+    register(Profile("C08", [C08], [(1, order)],
+                     "distinct history digest; non-trivial = >=1 discipline decision among >=2 waiting customers of >=2 classes",
                      B(40000, 400000)))
     cap = profile(qcap=0.9, qcap_vals=[INF, 0, 0, 1, 2, 3], syscap=0.4, batch=0.5, baulk=0.4, renege=0.3, jockey=0.5, n=[1, 2, 2, 3], **NOREROUTE)
     register(Profile("C06", [C06], [(1, cap)],
